@@ -118,6 +118,7 @@ func evChild(c *vf.Ctx, part int, race bool, only string, onlyNo int) {
 	}
 	if part == 0 {
 		env.reentrantAll(-1)
+		env.redundantAll()
 	}
 	for r := 0; r < rounds; r++ {
 		for _, k := range kinds {
@@ -170,6 +171,7 @@ func (e *evEnv) roundDyn(no int, pooled bool) {
 	yieldT := rng.Intn(3)
 	yieldH := rng.Intn(4)
 	cbYield := rng.Intn(3)
+	redundantUnhook := rng.Intn(2) == 0
 	eventLevelPool := pooled && rng.Intn(2) == 0
 	total := nT * m
 	base := argBase.Add(uint64(total)) - uint64(total)
@@ -232,8 +234,18 @@ func (e *evEnv) roundDyn(no int, pooled bool) {
 		go func(g int) {
 			defer wg.Done()
 			start.wait()
+			var prev *hookRec
 			for i := 0; i < cycles; i++ {
 				h := attach()
+				if redundantUnhook && prev != nil && prev.unhook != nil {
+					// Unhook again on a handle that is already detached, after a newer hook was
+					// attached: must not affect any other hook
+					guard(&panics, prev.unhook)
+					if i%3 == 0 {
+						guard(&panics, prev.unhook)
+					}
+				}
+				prev = h
 				for y := 0; y < yieldH; y++ {
 					runtime.Gosched()
 				}
